@@ -1,4 +1,5 @@
 import SaoVerif.Model.Blocks
+import SaoVerif.Model.Staking
 /-! The operation alphabet and `step`. -/
 namespace SaoVerif
 
@@ -27,6 +28,9 @@ inductive Op where
   | renew (creator msgProvider : Addr) (sigValid : Bool) (sigDid : Did) (duration : Nat) (timeout : Int) (data : List Bytes)
   | migrate (creator msgProvider : Addr) (data : List Bytes)
   | perm (creator msgProvider : Addr) (owner : Did) (dataId : Bytes) (ro rw : List Did) (sigValid : Bool)
+  | delegate (creator : Addr) (val : ValAddr) (amount : Int)
+  | undelegate (creator : Addr) (val : ValAddr) (amount : Int)
+  | restart
   | unmodelled (k : String)
   deriving Repr, Inhabited
 
@@ -41,6 +45,12 @@ def blocker (s : State) (r : TxM State) : Res × State :=
   match r with
   | .ok s' => (.ok, s')
   | .error m => if m = HANG then (.hang, s) else (.panic, s)
+
+/-- a staking message: committed state is atomic, the package variable is not -/
+def stakeStep (s : State) (r : Dec × TxM State) : Res × State :=
+  match r.2 with
+  | .ok s' => (.ok, s')
+  | .error _ => (.err, { s with global := r.1 })
 
 def step (e : Env) (s : State) : Op → Res × State
   | .advance to seed => (.ok, { s with h := to, seed := seed })
@@ -59,6 +69,9 @@ def step (e : Env) (s : State) : Op → Res × State
   | .renew c p sv sd du t data => atomic s ((saoRenew e s c p sv sd du t data).map (·.1))
   | .migrate c p data => atomic s (saoMigrate s c p data)
   | .perm c p ow d ro rw sv => atomic s (saoPermission s c p ow d ro rw sv)
+  | .delegate c v a => stakeStep s (stakeDelegate e s c v a)
+  | .undelegate c v a => stakeStep s (stakeUndelegate e s c v a)
+  | .restart => (.ok, { s with global := 0 })
   | .unmodelled _ => (.ok, s)
 
 end SaoVerif
